@@ -95,11 +95,14 @@ class Check:
                 open(dst, "w").write(new)
         return ok
 
-    def lake_build(self, targets):
+    def lake_build(self, targets, locked=False):
         cmd = ["lake", "build"] + targets
         self.checker_cmds.append("cd lean && " + " ".join(cmd))
-        with lake_lock(self.root):
+        if locked:
             rc, out = run(cmd, cwd=self.lean, timeout=3600)
+        else:
+            with lake_lock(self.root):
+                rc, out = run(cmd, cwd=self.lean, timeout=3600)
         return rc, out
 
     def go_build(self):
@@ -220,7 +223,7 @@ class Check:
             sites.append(parts[2] if len(parts) > 2 else None)
         opf = os.path.join(self.work, f"ops-{tag}.txt")
         open(opf, "w").write("".join(o + "\n" for o in ops))
-        drv = os.path.join(self.lean, ".lake", "build", "bin", "drv_" + self.pid.lower())
+        drv = getattr(self, "drv", None) or os.path.join(self.lean, ".lake", "build", "bin", "drv_" + self.pid.lower())
         with open(opf) as fin:
             p = subprocess.run(["timeout", "3000", drv], stdin=fin, stdout=subprocess.PIPE, stderr=subprocess.PIPE, text=True)
         models = p.stdout.split("\n")
@@ -418,35 +421,46 @@ def main(root, argv):
     c = Check(root, pid, tier, seed)
     log(f"{pid} tier={tier} seed={seed} repo={REPO}")
     rcg, outg = c.go_build()
-    ok_gen = c.regen(cfg) if rcg == 0 else (not cfg.get("gen"))
     module = cfg["module"]
     # tie_modules: theorems that tie REGENERATED definitions (lean/M3d/Gen) to the hand-written models;
     # they are obligations of the property like the theorems of Props/Cxx.lean
     ties = cfg.get("tie_modules", [])
-    rc, out = c.lake_build([module] + ties + ["drv_" + pid.lower()])
-    proofs_ok = rc == 0 and ok_gen
-    if rc != 0:
-        errs = [l for l in out.splitlines() if "error" in l][:20]
-        c.notes.append("lake build failed: " + " | ".join(errs))
-        # obligations are still counted; nothing is discharged for a module that does not build
-        for m in [module] + ties:
-            names, _ = c.theorem_names(m)
-            c.obligations += names
-    else:
-        for m in [module] + ties:
-            c.audit(m)
-        if tier == "thorough":
-            with lake_lock(root):
+    # regeneration and the build that consumes it happen under ONE lock, so that a concurrent check (of
+    # another property, possibly against another tree) cannot swap lean/M3d/Gen/* in between
+    lk = lake_lock(root)
+    lk.__enter__()
+    try:
+        ok_gen = c.regen(cfg) if rcg == 0 else (not cfg.get("gen"))
+        rc, out = c.lake_build([module] + ties + ["drv_" + pid.lower()], locked=True)
+        proofs_ok = rc == 0 and ok_gen
+        if rc != 0:
+            errs = [l for l in out.splitlines() if "error" in l][:20]
+            c.notes.append("lake build failed: " + " | ".join(errs))
+            # obligations are still counted; nothing is discharged for a module that does not build
+            for m in [module] + ties:
+                names, _ = c.theorem_names(m)
+                c.obligations += names
+        else:
+            for m in [module] + ties:
+                c.audit(m)
+            if tier == "thorough":
                 rc2, out2 = run(["lake", "env", "leanchecker", module], cwd=c.lean, timeout=3600)
-            c.checker_cmds.append(f"cd lean && lake env leanchecker {module}")
-            c.extra_cov["leanchecker"] = "ok" if rc2 == 0 else ("failed: " + out2[-500:])
-            if rc2 != 0:
-                proofs_ok = False
-                c.notes.append("leanchecker failed: " + out2[-500:])
+                c.checker_cmds.append(f"cd lean && lake env leanchecker {module}")
+                c.extra_cov["leanchecker"] = "ok" if rc2 == 0 else ("failed: " + out2[-500:])
+                if rc2 != 0:
+                    proofs_ok = False
+                    c.notes.append("leanchecker failed: " + out2[-500:])
+        # the native driver this run will use is copied aside while the lock is held
+        drv_src = os.path.join(c.lean, ".lake", "build", "bin", "drv_" + pid.lower())
+        c.drv = os.path.join(c.work, "drv_" + pid.lower())
+        if os.path.exists(drv_src):
+            shutil.copy2(drv_src, c.drv)
+    finally:
+        lk.__exit__(None, None, None)
     if rcg != 0:
         c.violations.append(dict(site=f"corr:{pid}/harness-does-not-build", kind="correspondence-broken", found_input=False,
                                  detail=outg[-1500:], replay=dict(error="go build -tags verif ./cmd/<pid> failed", output=outg[-3000:])))
-    elif rc == 0 or os.path.exists(os.path.join(c.lean, ".lake", "build", "bin", "drv_" + pid.lower())):
+    elif rc == 0 or os.path.exists(c.drv):
         hook = cfg.get("pre_corr")
         if hook:
             hook(c, cfg)
